@@ -876,6 +876,71 @@ Section TransferProofs.
       + f_equal. unfold transfer_loop. now apply loop_param_hit_gen.
       + apply in_or_app. right. now apply in_map.
   Qed.
+  (* ---- the guard is exact: without it the property fails ------------------ *)
+
+  Lemma nonlig_not_ligand_id rs r a :
+    NoDup (map pa_id (all_atoms rs)) -> In r rs -> pr_lig r = false -> In a (pr_atoms r) ->
+    ~ In (pa_id a) (ligand_ids rs).
+  Proof.
+    unfold ligand_ids, all_atoms. induction rs as [|r0 rs IH]; cbn [In flat_map filter]; intros Hnd Hr Hl Ha; [contradiction|].
+    rewrite map_app in Hnd.
+    assert (Hsub : sub (map pa_id (flat_map pr_atoms (filter pr_lig rs))) (map pa_id (flat_map pr_atoms rs))).
+    { apply sub_map. clear. induction rs as [|r rs IH]; cbn [filter flat_map]; [constructor|].
+      destruct (pr_lig r); cbn [flat_map].
+      - apply sub_app; [apply sub_refl | exact IH].
+      - exact (sub_trans _ _ _ IH (sub_app_r _ _)). }
+    destruct Hr as [->|Hr].
+    - rewrite Hl. intro Hin. apply (NoDup_app_In _ _ (pa_id a) Hnd); [now apply in_map | exact (sub_In _ _ _ Hsub Hin)].
+    - pose proof (sub_NoDup _ _ (sub_app_r _ _) Hnd) as Hnd'.
+      destruct (pr_lig r0); [|exact (IH Hnd' Hr Hl Ha)].
+      cbn [flat_map]. rewrite map_app. intro Hin. apply in_app_or in Hin as [Hin|Hin].
+      + apply (NoDup_app_In _ _ (pa_id a) Hnd Hin). apply in_map. apply in_flat_map. exists r. split; assumption.
+      + exact (IH Hnd' Hr Hl Ha Hin).
+  Qed.
+
+  Lemma forallb_false_exists {X} (f : X -> bool) l : forallb f l = false -> exists x, In x l /\ f x = false.
+  Proof.
+    induction l as [|x l IH]; cbn [forallb]; intros H; [discriminate|].
+    destruct (f x) eqn:E.
+    - destruct (IH H) as [y [Hy Hf]]. exists y. split; [now right | exact Hf].
+    - exists x. split; [now left | exact E].
+  Qed.
+
+  (* an atom that is both a force-field hit and visited by the loop is written twice *)
+  Lemma hit_and_vis_dup rs a :
+    In a (all_atoms rs) -> pa_ff a <> None -> In a (all_vis rs) -> ~ NoDup (map fst (written lig rs)).
+  Proof.
+    intros Ha Hff Hv Hnd. unfold written in Hnd. rewrite loop_lig, map_map in Hnd. cbn [fst] in Hnd. rewrite map_id in Hnd.
+    apply (NoDup_app_In _ _ (pa_id a) Hnd); [|now apply in_map].
+    unfold ff_hits. apply in_map. apply filter_In. split; [exact Ha|]. destruct (pa_ff a); [reflexivity | contradiction].
+  Qed.
+
+  Theorem transfer_guard_exact rs :
+    NoDup (map pa_id (all_atoms rs)) -> transfer_only_ligand rs -> guard rs = true.
+  Proof.
+    intros Hnd [H1 [H2 _]]. destruct (guard rs) eqn:Hg; [reflexivity|exfalso].
+    unfold guard in Hg. apply forallb_false_exists in Hg as [r [Hr Hf]].
+    destruct (pr_lig r) eqn:Hl.
+    - apply forallb_false_exists in Hf as [a [Ha Hff]].
+      apply (hit_and_vis_dup rs a); [| |  | exact H2].
+      + apply in_flat_map. exists r. split; [exact Hr | exact (sub_In _ _ _ (sub_vis _) Ha)].
+      + destruct (pa_ff a); [discriminate | discriminate].
+      + apply in_flat_map. exists r. split; assumption.
+    - destruct (vis (pr_atoms r)) as [|a l] eqn:Hv; [discriminate|].
+      assert (Hav : In a (vis (pr_atoms r))) by (rewrite Hv; now left).
+      assert (Hall : In a (all_vis rs)) by (apply in_flat_map; exists r; split; assumption).
+      assert (Hat : In a (pr_atoms r)) by exact (sub_In _ _ _ (sub_vis _) Hav).
+      assert (Hatoms : In a (all_atoms rs)) by (apply in_flat_map; exists r; split; assumption).
+      unfold vis in Hav. apply filter_In in Hav as [_ Hnamed]. unfold named in Hnamed.
+      destruct (lookup (pa_name a) lig) as [p|] eqn:Hp; [|discriminate].
+      assert (Hw : In (pa_id a, Some p) (written lig rs)).
+      { unfold written. rewrite loop_lig. apply in_map_iff. exists (pa_id a). split.
+        - f_equal. unfold transfer_loop. now apply loop_param_hit_gen.
+        - apply in_or_app. right. now apply in_map. }
+      pose proof (H1 _ _ (nonlig_not_ligand_id rs r a Hnd Hr Hl Hat) Hw) as Hff.
+      rewrite (ff_param_in rs a Hnd Hatoms) in Hff.
+      apply (hit_and_vis_dup rs a Hatoms); [rewrite <- Hff; discriminate | exact Hall | exact H2].
+  Qed.
 End TransferProofs.
 
 (* F4: a water whose H1 shares its name with a ligand atom takes the ligand's
@@ -904,3 +969,123 @@ Proof.
     repeat match goal with H : NoDup (_ :: _) |- _ => inversion H; clear H; subst end.
     match goal with H : ~ In 5%nat _ |- _ => apply H; cbn; intuition end.
 Qed.
+
+(* ---- formal charges under relabelling of the atoms ------------------------ *)
+
+Lemma flat_map_map_in {X Y Z} (f : Y -> list Z) (g : X -> Y) (h : X -> list Z) (s : Z -> Z) l :
+  (forall x, In x l -> f (g x) = map s (h x)) -> flat_map f (map g l) = map s (flat_map h l).
+Proof.
+  induction l as [|x l IH]; cbn [map flat_map]; intros H; [reflexivity|].
+  rewrite map_app, (H x (or_introl eq_refl)), IH; [reflexivity|]. intros; apply H; now right.
+Qed.
+
+Lemma filter_map_length {X Y} (p : Y -> bool) (g : X -> Y) l :
+  length (filter p (map g l)) = length (filter (fun x => p (g x)) l).
+Proof. induction l as [|x l IH]; cbn [map filter]; [reflexivity|]. destruct (p (g x)); cbn [length]; now rewrite IH. Qed.
+
+Section FormalEquivariance.
+  Context (m : mol) (sigma tau : nat -> nat).
+  Local Notation n := (m_n m).
+  Context (Hsigma : forall i, (i < n)%nat -> (sigma i < n)%nat).
+  Context (Hts : forall i, (i < n)%nat -> tau (sigma i) = i).
+  Context (Hok : mol_ok m = true).
+
+  Definition rb (b : nat * nat * btype) : nat * nat * btype := (sigma (fst (fst b)), sigma (snd (fst b)), snd b).
+
+  (* the same molecule with the atom at position i moved to position sigma i *)
+  Definition relabel : mol :=
+    mkmol (map (fun k => m_ty m (tau k)) (seq 0 n)) (map rb (m_bonds m)).
+
+  Lemma relabel_n : m_n relabel = n.
+  Proof. unfold m_n, relabel. cbn [m_types]. now rewrite map_length, seq_length. Qed.
+
+  Lemma sig_inj i j : (i < n)%nat -> (j < n)%nat -> (sigma i =? sigma j)%nat = (i =? j)%nat.
+  Proof.
+    intros Hi Hj. destruct (Nat.eqb_spec i j) as [->|Hne]; [apply Nat.eqb_refl|].
+    apply Nat.eqb_neq. intro H. apply Hne. rewrite <- (Hts i Hi), <- (Hts j Hj), H. reflexivity.
+  Qed.
+
+  Lemma ty_rel i : (i < n)%nat -> m_ty relabel (sigma i) = m_ty m i.
+  Proof.
+    intros Hi. unfold m_ty at 1. unfold relabel. cbn [m_types].
+    rewrite nth_map_seq by (apply Hsigma, Hi). now rewrite Hts.
+  Qed.
+
+  Lemma mbonds_lt b : In b (m_bonds m) -> (fst (fst b) < n)%nat /\ (snd (fst b) < n)%nat.
+  Proof.
+    intros Hin. unfold mol_ok, bonds_ok, m_pairs in Hok. rewrite forallb_forall in Hok.
+    specialize (Hok (fst b) (in_map fst _ _ Hin)). apply andb_true_iff in Hok as [Ha Hb].
+    apply Nat.ltb_lt in Ha, Hb. split; assumption.
+  Qed.
+
+  Lemma atom_bonds_in i b : In b (atom_bonds m i) -> In b (m_bonds m).
+  Proof.
+    unfold atom_bonds. intros H. apply in_flat_map in H as [b' [Hb' H]].
+    apply in_app_or in H as [H|H].
+    - destruct (fst (fst b') =? i)%nat; [destruct H as [<-|[]]; exact Hb' | contradiction].
+    - destruct (snd (fst b') =? i)%nat; [destruct H as [<-|[]]; exact Hb' | contradiction].
+  Qed.
+
+  Lemma atom_bonds_rel i : (i < n)%nat -> atom_bonds relabel (sigma i) = map rb (atom_bonds m i).
+  Proof.
+    intros Hi. unfold atom_bonds, relabel. cbn [m_bonds]. pose proof mbonds_lt as Hlt.
+    induction (m_bonds m) as [|b bs IH]; [reflexivity|].
+    cbn [map flat_map]. rewrite map_app, IH by (intros; apply Hlt; now right).
+    destruct (Hlt b (or_introl eq_refl)) as [Ha Hb].
+    unfold rb at 1 2 3 4. cbn [fst snd]. rewrite !sig_inj by assumption. rewrite map_app.
+    destruct (fst (fst b) =? i)%nat; destruct (snd (fst b) =? i)%nat; reflexivity.
+  Qed.
+
+  Lemma bond_order_rel i : (i < n)%nat -> bond_order relabel (sigma i) = bond_order m i.
+  Proof.
+    intros Hi. unfold bond_order. rewrite atom_bonds_rel by exact Hi.
+    rewrite fold_left_map, filter_map_length. reflexivity.
+  Qed.
+
+  Lemma phosphate_rel i : (i < n)%nat -> phosphate_rule relabel (sigma i) = phosphate_rule m i.
+  Proof.
+    intros Hi. unfold phosphate_rule. rewrite atom_bonds_rel by exact Hi.
+    destruct (atom_bonds m i) as [|b0 l] eqn:Eb; [reflexivity|]. cbn [map].
+    assert (Hb0 : In b0 (m_bonds m)) by (apply (atom_bonds_in i); rewrite Eb; now left).
+    destruct (mbonds_lt b0 Hb0) as [H1 H2].
+    unfold rb at 1 2 3 4. cbn [fst snd]. rewrite !ty_rel by assumption.
+    assert (Hmain : forall p, (p < n)%nat ->
+      match flat_map (fun b => filter (fun a => ((first_char (m_ty relabel a) =? "O")%string && (bond_order relabel a =? 1)%Z))
+                                      [fst (fst b); snd (fst b)]) (atom_bonds relabel (sigma p)) with
+      | [] => None
+      | o :: _ => Some (if (o =? sigma i)%nat then (-2)%Z else 0%Z)
+      end =
+      match flat_map (fun b => filter (fun a => ((first_char (m_ty m a) =? "O")%string && (bond_order m a =? 1)%Z))
+                                      [fst (fst b); snd (fst b)]) (atom_bonds m p) with
+      | [] => None
+      | o :: _ => Some (if (o =? i)%nat then (-2)%Z else 0%Z)
+      end).
+    { intros p Hp. rewrite atom_bonds_rel by exact Hp.
+      rewrite (flat_map_map_in _ rb
+                 (fun b => filter (fun a => ((first_char (m_ty m a) =? "O")%string && (bond_order m a =? 1)%Z))
+                                  [fst (fst b); snd (fst b)]) sigma).
+      - destruct (flat_map _ (atom_bonds m p)) as [|o os] eqn:Eo; [reflexivity|]. cbn [map].
+        assert (Ho : (o < n)%nat).
+        { assert (Hin : In o (flat_map (fun b => filter (fun a => ((first_char (m_ty m a) =? "O")%string && (bond_order m a =? 1)%Z))
+                                  [fst (fst b); snd (fst b)]) (atom_bonds m p))) by (rewrite Eo; now left).
+          apply in_flat_map in Hin as [b [Hb Hin]]. apply filter_In in Hin as [Hin _].
+          destruct (mbonds_lt b (atom_bonds_in p b Hb)) as [Ha Hc].
+          destruct Hin as [<-|[<-|[]]]; assumption. }
+        now rewrite sig_inj.
+      - intros b Hb. destruct (mbonds_lt b (atom_bonds_in p b Hb)) as [Ha Hc].
+        unfold rb. cbn [fst snd filter map].
+        rewrite !ty_rel, !bond_order_rel by assumption.
+        destruct ((first_char (m_ty m (fst (fst b))) =? "O")%string && (bond_order m (fst (fst b)) =? 1)%Z);
+          destruct ((first_char (m_ty m (snd (fst b))) =? "O")%string && (bond_order m (snd (fst b)) =? 1)%Z); reflexivity. }
+    destruct (first_char (m_ty m (fst (fst b0))) =? "P")%string; [exact (Hmain _ H1)|].
+    destruct (first_char (m_ty m (snd (fst b0))) =? "P")%string; [exact (Hmain _ H2) | reflexivity].
+  Qed.
+
+  (* Mol2Atom.formal_charge does not depend on where the atom stands in the file *)
+  Theorem formal_charge_equivariant i :
+    (i < n)%nat -> formal_charge2 relabel (sigma i) = formal_charge2 m i.
+  Proof.
+    intros Hi. unfold formal_charge2.
+    rewrite ty_rel, bond_order_rel, phosphate_rel by exact Hi. reflexivity.
+  Qed.
+End FormalEquivariance.
